@@ -235,7 +235,6 @@ static int g_maring_backend;
 static void *g_mblk[MAXBLK]; static int g_nmblk;       /* blocks handed out by mpool.alloc */
 #define MAXCTX 64
 static muggle_event_context_t g_ctx[MAXCTX]; static int g_ctxfd[MAXCTX][2]; static int g_nctx;
-static muggle_socket_context_t g_sctx[MAXCTX];
 
 static int cmp_ip(const void *a, const void *b)
 {
@@ -781,21 +780,30 @@ static void vh_op(int argc, char **argv)
 	}
 	if (IS("sockh.addctx")) {
 		NEED(s_sockh); NEED(s_evloop);
-		if (g_nctx >= MAXCTX) { printf("bad-op\n"); return; }
-		if (__real_pipe(g_ctxfd[g_nctx]) != 0) { printf("bad-op\n"); return; }
-		muggle_socket_ctx_init(&g_sctx[g_nctx], g_ctxfd[g_nctx][0], NULL, MUGGLE_SOCKET_CTX_TYPE_PIPE);
+		/* the caller's context: a heap block (released by the handle with free(), its default
+		 * cb_free) and a descriptor; both are entered in the live table so that the hand-over
+		 * of ownership is part of the accounting */
+		int fds[2];
+		if (__real_pipe(fds) != 0) { printf("bad-op\n"); return; }
+		__real_close(fds[1]);
+		muggle_socket_context_t *ctx = (muggle_socket_context_t *)__real_malloc(sizeof(*ctx));
+		if (ctx == NULL) { __real_close(fds[0]); printf("bad-op\n"); return; }
+		muggle_socket_ctx_init(ctx, fds[0], NULL, MUGGLE_SOCKET_CTX_TYPE_PIPE);
+		tab_add(ctx); fd_add(fds[0]);
 		muggle_socket_evloop_handle_attach(&g_sockh, g_evloop);
 		ENTER();
 		/* works with the void signature of the unfixed tree (reported as ret=void) and the int one */
 		int r = __builtin_choose_expr(
-			__builtin_types_compatible_p(__typeof__(muggle_socket_evloop_add_ctx(g_evloop, &g_sctx[g_nctx])), void),
-			(muggle_socket_evloop_add_ctx(g_evloop, &g_sctx[g_nctx]), 12345),
-			muggle_socket_evloop_add_ctx(g_evloop, &g_sctx[g_nctx]));
+			__builtin_types_compatible_p(__typeof__(muggle_socket_evloop_add_ctx(g_evloop, ctx)), void),
+			(muggle_socket_evloop_add_ctx(g_evloop, ctx), 12345),
+			muggle_socket_evloop_add_ctx(g_evloop, ctx));
 		LEAVE();
-		g_nctx++;
+		if (r != 0 && r != 12345) {          /* not queued: still the caller's, who releases it */
+			close(fds[0]);
+			free(ctx);
+		}
 		SOCKH_ST(); line(r == 12345 ? "void" : RB(r == 0), st); return;
 	}
-
 	if (IS("evpipe.init")) {
 		CAN_INIT(s_evpipe); memset(&g_evpipe, 0, sizeof(g_evpipe));
 		ENTER(); int r = muggle_socket_evloop_pipe_init(&g_evpipe); LEAVE();
